@@ -937,9 +937,14 @@ class DavSys:
             snap = {nm: g[1] for nm, g in a["get"].items() if g[0] == 200}
             toks = self.tokens
             pairs = [("", {})] + [(t, sn) for (t, sn) in toks]
-            for (tok, old) in pairs:
+            if "sync-held" in self.cfg.features:
+                # a client that holds on to ONE token: nothing but reports for the oldest token between the writes
+                pairs = pairs[1:2] or pairs[:1]
+            # every report is issued twice in a row: the answer for a token must not depend on having been asked before
+            pairs = [pr for pr in pairs for _ in (0, 1)]
+            for rep_i, (tok, old) in enumerate(pairs):
                 st, changes, newtok, r = self.sync_report(coll, tok)
-                label = "empty-token" if tok == "" else "token"
+                label = ("empty-token" if tok == "" else "token") + (":repeated" if rep_i % 2 else "")
                 if st != 207:
                     self.violation("C07", "report-failed:%s:%s" % (label, st), "sync-collection with a token this collection issued answered %s" % st, {"op": op, "token": tok, "exc": r.exc})
                     continue
